@@ -475,6 +475,8 @@ def constructed():
         for dest in (["fresh", "collide"] if op in ("rekey_set", "rekey_assign", "update_statepoint", "move", "clone") else ["fresh"]):
             out.append(dict(base, op=op, dest=dest))
     out.append(dict(base, op="rekey_set", dest="same"))
+    out.append(dict(base, op="rekey_assign", dest="same"))  # the state point assigned again as it is: nothing to do, nothing to lose
+    out.append(dict(base, op="update_statepoint", dest="same"))
     out.append(dict(base, op="rekey_set", dest="remains"))
     out.append(dict(base, op="rekey_set", dest="fresh", prov="id"))
     out.append(dict(base, op="update_statepoint", dest="fresh", prov="id"))
